@@ -295,7 +295,8 @@ CO_ERR COSdoUploadExpedited(CO_SDO *srv)
     if (size == 0) {
         return (result);
     } else if (size <= 4) {
-        err = COObjRdValue(srv->Obj, srv->Node, (void *)&data, (uint8_t)size);
+        /* start reading at the begin of the object */
+        err = COObjRdBufStart(srv->Obj, srv->Node, (uint8_t *)&data, size);
         if (err != CO_ERR_NONE) {
             if (srv->Abort > 0) {
                 COSdoAbort(srv, srv->Abort);
@@ -336,7 +337,8 @@ CO_ERR COSdoDownloadExpedited(CO_SDO *srv)
     size = COSdoGetSize(srv, width, true);
     if ((size > 0) && (size <= 4)) {
         data   = CO_GET_LONG(srv->Frm, 4);
-        err    = COObjWrValue(srv->Obj, srv->Node, (void*)&data, (uint8_t)size);
+        /* start writing at the begin of the object */
+        err    = COObjWrBufStart(srv->Obj, srv->Node, (uint8_t *)&data, size);
         if (err != CO_ERR_NONE) {
             if (srv->Abort > 0) {
                 COSdoAbort(srv, srv->Abort);
@@ -487,7 +489,8 @@ CO_ERR COSdoInitDownloadSegmented(CO_SDO *srv)
         srv->Buf.Num  = 0;
 
         if (size <= 4) {
-            /* no action for basic type entry */
+            /* rewind object, no further action for basic type entry */
+            (void)COObjReset(srv->Obj, srv->Node, 0);
             result = CO_ERR_NONE;
         } else {
             result = COObjWrBufStart(srv->Obj, srv->Node, srv->Buf.Cur, 0);
@@ -615,7 +618,8 @@ CO_ERR COSdoInitDownloadBlock(CO_SDO *srv)
         CO_SET_LONG(srv->Frm, (uint32_t)CO_SDO_BUF_SEG, 4);
         
         if (size <= 4) {
-            /* no action for basic type entry */
+            /* rewind object, no further action for basic type entry */
+            (void)COObjReset(srv->Obj, srv->Node, 0);
             result = CO_ERR_NONE;
         } else {
             result = COObjWrBufStart(srv->Obj, srv->Node, srv->Buf.Cur, 0);
@@ -775,7 +779,8 @@ CO_ERR COSdoInitUploadBlock(CO_SDO *srv)
     srv->Blk.State     = BLK_UPLOAD;
 
     if (size <= 4) {
-        /* no action for basic type entry */
+        /* rewind object, no further action for basic type entry */
+        (void)COObjReset(srv->Obj, srv->Node, 0);
         err = CO_ERR_NONE;
     } else {
         err = COObjRdBufStart(srv->Obj, srv->Node, srv->Buf.Cur, 0);
